@@ -83,6 +83,7 @@ type instrumenter struct {
 	uninstr  []string
 	rtName   string
 	changed  bool
+	keep     map[string]bool // "pkg.Func" references to keep alive after call replacement
 }
 
 var rtImport = modPath + "/internal/zzverifrt"
@@ -139,11 +140,16 @@ func instrument(work, cfg, mode string) (map[string]string, error) {
 		if mode == "sched" || mode == "trace" {
 			for i, af := range files {
 				in.changed = false
+				in.keep = map[string]bool{}
 				in.file(af)
 				if !in.changed {
 					continue
 				}
 				addImport(af, rtImport, in.rtName)
+				for k := range in.keep {
+					parts := strings.SplitN(k, ".", 2)
+					af.Decls = append(af.Decls, &ast.GenDecl{Tok: token.VAR, Specs: []ast.Spec{&ast.ValueSpec{Names: []*ast.Ident{ast.NewIdent("_")}, Values: []ast.Expr{&ast.SelectorExpr{X: ast.NewIdent(parts[0]), Sel: ast.NewIdent(parts[1])}}}}})
+				}
 				var buf bytes.Buffer
 				if err := format.Node(&buf, fset, af); err != nil {
 					return nil, fmt.Errorf("printing %s: %v", names[i], err)
@@ -578,8 +584,10 @@ func (in *instrumenter) traceNode(n ast.Node) {
 						key := pn.Imported().Path() + "." + sel.Sel.Name
 						if w, ok := vartimePrims[key]; ok {
 							in.changed = true
+							in.keep[id.Name+"."+sel.Sel.Name] = true
+							sid := in.site(y.Pos(), "vartime "+key)
 							y.Fun = &ast.SelectorExpr{X: ast.NewIdent(in.rtName), Sel: ast.NewIdent(w)}
-							y.Args = append([]ast.Expr{intLit(in.site(y.Pos(), "vartime "+key))}, y.Args...)
+							y.Args = append([]ast.Expr{intLit(sid)}, y.Args...)
 						}
 					}
 				}
